@@ -212,6 +212,9 @@ func rejudge(e *RunEnv, spec *Spec, v *Violation) []Violation {
 				vs, _ := spec.CheckTrans(c, cur, st, r, post)
 				out = append(out, vs...)
 			}
+			if last && v.Oracle == "seed-command-succeeds" && r.Exit != 0 {
+				out = append(out, Violation{Oracle: "seed-command-succeeds", Command: st.Cmd(), Detail: "an ordinary command of a seed scenario failed: " + st.String() + outputTail(r)})
+			}
 			if last && r.TimedOut {
 				out = append(out, Violation{Oracle: "terminates", Command: st.Cmd()})
 			}
